@@ -34,6 +34,9 @@ def run(ctx, rep):
     _p4(F, rep)
     from . import ub
     ub.p3(ctx, rep)
+    # P6: under every parameter vector analysis and reconstruction drive the shared predictor with the same state
+    # operations at the same points of the correction stream (the mirror-image mechanism the property rests on)
+    c02.m1s(F, rep, "P6")
 
 
 def _written_values(F, wb, t):
